@@ -248,3 +248,190 @@ Proof.
         [apply Nat.ltb_lt in E1; apply Nat.ltb_ge in E2 | apply Nat.ltb_ge in E1; apply Nat.ltb_lt in E2]; lia.
 Qed.
 
+
+Lemma sacts_bounds : forall gens s, SInv gens s ->
+  sstp s <= length (sacts s) <= sstp s + 1.
+Proof.
+  intros gens s I.
+  destruct (Nat.lt_ge_cases (length (sarrived s)) (sn s)) as [H|H].
+  - destruct (j_collect _ _ I H). lia.
+  - destruct (j_exlast _ _ I H) as (v & Hv).
+    destruct (j_last _ _ I v Hv) as (_ & _ & _ & L). destruct (spc (sthr s v)); lia.
+Qed.
+
+(** The action runs at most once per generation, in order (generation k is the k-th action), exactly once for
+    every generation some thread has left; a thread that has left generation g finds the action of g run. *)
+Theorem bs_action_once_before_release : forall y gens s,
+  1 <= length gens -> sreachable (length gens) y gens s ->
+  map snd (sacts s) = rev (seq 0 (length (sacts s))) /\
+  sstp s <= length (sacts s) <= sstp s + 1 /\
+  (forall g, count_occ Nat.eq_dec (map snd (sacts s)) g = if g <? length (sacts s) then 1 else 0) /\
+  (forall t g, t < length gens -> g < sgen (sthr s t) ->
+               In g (map snd (sacts s)) /\ count_occ Nat.eq_dec (map snd (sacts s)) g = 1).
+Proof.
+  intros y gens s Hn R. pose proof (SInv_reachable _ _ _ Hn R) as I.
+  pose proof (j_acts _ _ I) as A. pose proof (sacts_bounds _ _ I) as B.
+  split; [exact A|]. split; [exact B|]. split.
+  - intros g. rewrite A at 1. apply count_rev_seq.
+  - intros t g Ht Hg. rewrite <- (j_n _ _ I) in Ht.
+    assert (g < length (sacts s)).
+    { destruct (sgen_window _ _ _ I Ht) as [E|(E & _)]; lia. }
+    split.
+    + rewrite A, <- in_rev, in_seq. lia.
+    + rewrite A at 1. rewrite count_rev_seq. apply Nat.ltb_lt in H. now rewrite H.
+Qed.
+
+(** The action is run by the last arriver (the most recent arrival), when every other participant has arrived
+    in generation g and spins inside wait(); nobody has left generation g; the action of g has not run before;
+    and the release (increment of step_) has not happened: it is this thread's next event. *)
+Theorem bs_action_by_last : forall y gens s t g s',
+  1 <= length gens -> sreachable (length gens) y gens s ->
+  sstep s (t, OAct g) = Some s' ->
+  g = sgen (sthr s t) /\ g = sstp s /\ (exists l, sarrived s = t :: l) /\
+  (forall u, u < length gens -> u <> t ->
+             In u (sarrived s) /\ spinb (spc (sthr s u)) = true /\ tstep (sthr s u) = sstp s /\ sgen (sthr s u) = g) /\
+  (forall u, u < length gens -> sgen (sthr s u) <= g) /\
+  ~ In g (map snd (sacts s)) /\ sacts s' = (t, g) :: sacts s /\ sstp s' = sstp s.
+Proof.
+  intros y gens s t g s' Hn R H. pose proof (SInv_reachable _ _ _ Hn R) as I.
+  destruct I as [Jn Jn1 Jnd Jarr Jcol Jlast Jex Juniq Jthr Jab Jacts].
+  destruct (Nat.lt_ge_cases t (sn s)) as [Ht|Ht].
+  2: { unfold sstep in H. rewrite (Jab t Ht) in H. discriminate. }
+  pose proof (Jthr t Ht) as Tt. unfold tinvS in Tt.
+  unfold sstep in H. destruct (spc (sthr s t)) eqn:Hpc; try discriminate.
+  destruct (g =? sgen (sthr s t)) eqn:Eg; try discriminate.
+  inversion H; subst; clear H. apply Nat.eqb_eq in Eg. subst g. cbn.
+  assert (LT : lastb (spc (sthr s t)) = true) by (rewrite Hpc; reflexivity).
+  destruct (Jlast t LT) as (L1 & L2 & L3 & L4). rewrite Hpc in L3, L4.
+  destruct Tt as (T1 & T2 & T3 & T4). rewrite <- Jn.
+  assert (Full : forall u, u < sn s -> In u (sarrived s)).
+  { apply pigeon_full; auto; [|lia]. intros u Hu. apply Jarr in Hu. tauto. }
+  assert (Oth : forall u, u < sn s -> u <> t ->
+            In u (sarrived s) /\ spinb (spc (sthr s u)) = true /\ tstep (sthr s u) = sstp s /\
+            sgen (sthr s u) = sgen (sthr s t)).
+  { intros u Hu Hne. pose proof (Full u Hu) as Hin. split; auto.
+    apply Jarr in Hin. destruct Hin as (_ & [(Hs & Hts)|Hl]).
+    - split; auto. split; auto.
+      pose proof (Jthr u Hu) as Tu. unfold tinvS in Tu.
+      destruct (spc (sthr s u)); cbn in Hs; try discriminate; lia.
+    - exfalso. apply Hne. apply Juniq; auto. }
+  split; [reflexivity|]. split; [lia|]. split; [exact L2|]. split; [exact Oth|].
+  split; [|split; [|split; reflexivity]].
+  - intros u Hu. destruct (Nat.eq_dec u t) as [->|Hne]; [lia|]. destruct (Oth u Hu Hne) as (_ & _ & _ & E'). lia.
+  - rewrite Jacts, <- in_rev, in_seq. lia.
+Qed.
+
+(** ---------------------------------------------------------------- reusable: no livelock short of the end *)
+Lemma nth_repeat_lt : forall (K : nat) n u, u < n -> nth u (repeat K n) 0 = K.
+Proof. induction n; intros u Hu; [lia|]. destruct u; cbn; auto. apply IHn. lia. Qed.
+
+(** If all n participants cross the barrier K times and the only enabled events are iterations of the busy
+    loop of threads waiting for a generation change that has not happened, then every participant has
+    completed all K generations: for every n >= 1 and every K the barrier cannot get stuck spinning (the
+    spin barrier's form of "no lost wake-up / reusable"; it has no blocking rest states). *)
+Theorem bs_no_livelock : forall n y K s t,
+  1 <= n -> sreachable n y (repeat K n) s ->
+  (forall e s', sstep s e = Some s' -> is_spin s e) ->
+  t < n -> spc (sthr s t) = SDone /\ sgen (sthr s t) = K.
+Proof.
+  intros n y K s t Hn R Q Ht.
+  assert (Hl : length (repeat K n) = n) by apply repeat_length.
+  rewrite <- Hl in R at 1. rewrite <- Hl in Hn.
+  pose proof (SInv_reachable _ _ _ Hn R) as I. rewrite Hl in Hn.
+  assert (Hsn : sn s = n) by (rewrite (j_n _ _ I); exact Hl).
+  (* every participant spins in the current generation or is done *)
+  assert (B : forall u, u < n ->
+              (In u (sarrived s) /\ sgen (sthr s u) = sstp s /\ 1 <= sleft (sthr s u)
+               /\ sgen (sthr s u) + sleft (sthr s u) = K /\ lastb (spc (sthr s u)) = false) \/
+              (spc (sthr s u) = SDone /\ sgen (sthr s u) = sstp s /\ sgen (sthr s u) = K)).
+  { intros u Hu. rewrite <- Hsn in Hu.
+    pose proof (j_thr _ _ I u Hu) as T. unfold tinvS in T.
+    rewrite Hsn in Hu. rewrite (nth_repeat_lt K n u Hu) in T.
+    assert (NS : forall o s', sstep s (u, o) = Some s' ->
+                 (spc (sthr s u) = SSpin \/ spc (sthr s u) = SYield) /\ tstep (sthr s u) = sstp s).
+    { intros o s' Hs. apply Q in Hs. unfold is_spin in Hs. cbn in Hs.
+      destruct (spc (sthr s u)); try contradiction; auto. }
+    destruct (spc (sthr s u)) eqn:Hpc.
+    - exfalso. destruct (sleft (sthr s u)) eqn:El.
+      + destruct (NS OEnd (sset_thr s u (mkST SDone (tstep (sthr s u)) (sgen (sthr s u)) 0))) as ([Hc|Hc] & _); try discriminate.
+        unfold sstep. rewrite Hpc, El. reflexivity.
+      + destruct (NS (OIn (sgen (sthr s u))) (sset_thr s u (mkST SEntered (tstep (sthr s u)) (sgen (sthr s u)) (sleft (sthr s u)))))
+          as ([Hc|Hc] & _); try discriminate.
+        unfold sstep. rewrite Hpc, El, Nat.eqb_refl. rewrite <- El. reflexivity.
+    - exfalso.
+      destruct (NS (OLoad 0 (sstp s)) (sset_thr s u (mkST SLoaded (sstp s) (sgen (sthr s u)) (sleft (sthr s u)))))
+        as ([Hc|Hc] & _); try discriminate.
+      unfold sstep. rewrite Hpc. cbn. rewrite Nat.eqb_refl. reflexivity.
+    - exfalso.
+      destruct (sstep s (u, ORmw 1 (waiting s) (waiting s + 1))) as [s'|] eqn:Es.
+      + destruct (NS _ _ Es) as ([Hc|Hc] & _); discriminate.
+      + unfold sstep in Es. rewrite Hpc in Es. cbn in Es. rewrite !Nat.eqb_refl in Es. discriminate.
+    - left. destruct T as (T1 & T2 & [(C1 & C2)|(C1 & C2)]).
+      + repeat split; auto. apply (j_arr _ _ I). rewrite Hsn, Hpc. cbn. auto.
+      + exfalso.
+        destruct (sstep s (u, OLoad 0 (sstp s))) as [s'|] eqn:Es.
+        * destruct (NS _ _ Es) as (_ & Hc). lia.
+        * unfold sstep in Es. rewrite Hpc in Es. cbn in Es. rewrite Nat.eqb_refl in Es.
+          destruct (sstp s =? tstep (sthr s u)); discriminate.
+    - left. destruct T as (T1 & T2 & [(C1 & C2)|(C1 & C2)]).
+      + repeat split; auto. apply (j_arr _ _ I). rewrite Hsn, Hpc. cbn. auto.
+      + exfalso.
+        destruct (NS OYield (sset_thr s u (mkST SSpin (tstep (sthr s u)) (sgen (sthr s u)) (sleft (sthr s u))))) as (_ & Hc); [|lia].
+        unfold sstep. rewrite Hpc. reflexivity.
+    - exfalso.
+      destruct (sstep s (u, OStore 1 0)) as [s'|] eqn:Es.
+      + destruct (NS _ _ Es) as ([Hc|Hc] & _); discriminate.
+      + unfold sstep in Es. rewrite Hpc in Es. cbn in Es. discriminate.
+    - exfalso.
+      destruct (sstep s (u, OAct (sgen (sthr s u)))) as [s'|] eqn:Es.
+      + destruct (NS _ _ Es) as ([Hc|Hc] & _); discriminate.
+      + unfold sstep in Es. rewrite Hpc, Nat.eqb_refl in Es. discriminate.
+    - exfalso.
+      destruct (sstep s (u, ORmw 0 (sstp s) (sstp s + 1))) as [s'|] eqn:Es.
+      + destruct (NS _ _ Es) as ([Hc|Hc] & _); discriminate.
+      + unfold sstep in Es. rewrite Hpc in Es. cbn in Es. rewrite !Nat.eqb_refl in Es. discriminate.
+    - exfalso. destruct T as (_ & T2 & T3).
+      destruct (sstep s (u, OOut (sgen (sthr s u) - 1))) as [s'|] eqn:Es.
+      + destruct (NS _ _ Es) as ([Hc|Hc] & _); discriminate.
+      + unfold sstep in Es. rewrite Hpc in Es.
+        replace (sgen (sthr s u) - 1 + 1) with (sgen (sthr s u)) in Es by lia.
+        rewrite Nat.eqb_refl in Es. discriminate.
+    - right. destruct T as (T1 & T2 & T3). repeat split; auto. lia. }
+  destruct (B t Ht) as [(Hin & Hg & Hleft & HK & Hnl)|(Hd & _ & HK)]; [exfalso|auto].
+  assert (All : forall u, u < n -> In u (sarrived s) /\ lastb (spc (sthr s u)) = false).
+  { intros u Hu. destruct (B u Hu) as [(Hin' & _ & _ & _ & Hnl')|(_ & Hg' & HK')]; auto. exfalso. lia. }
+  assert (Hle : length (seq 0 n) <= length (sarrived s)).
+  { apply NoDup_incl_length; [apply seq_NoDup|]. intros u Hu. apply in_seq in Hu. apply All. lia. }
+  rewrite seq_length in Hle. rewrite <- Hsn in Hle.
+  destruct (j_exlast _ _ I Hle) as (v & Hv).
+  destruct (j_last _ _ I v Hv) as (_ & (l & El) & _).
+  assert (Hvin : In v (sarrived s)) by (rewrite El; left; reflexivity).
+  apply (j_arr _ _ I) in Hvin. destruct Hvin as (Hvn & _). rewrite Hsn in Hvn.
+  destruct (All v Hvn) as (_ & Hc). congruence.
+Qed.
+
+(** the hypotheses are satisfiable by a non-trivial state: 2 threads; generation 0 complete (thread 1 was the
+    last arriver), thread 0 already spins in generation 1 *)
+Definition bs_example_trace : list event :=
+  [ (0, OIn 0); (1, OIn 0); (0, OLoad 0 0); (0, ORmw 1 0 1); (1, OLoad 0 0); (0, OLoad 0 0);
+    (1, ORmw 1 1 2); (1, OStore 1 0); (1, OAct 0); (1, ORmw 0 0 1); (1, OOut 0);
+    (0, OLoad 0 1); (0, OOut 0); (0, OIn 1); (0, OLoad 0 1); (0, ORmw 1 0 1); (0, OLoad 0 1) ].
+
+Lemma bs_example_aux : forall r : option sstate,
+  r = spinrun (sinit 2 false [2; 2]) bs_example_trace ->
+  match r with
+  | Some s => (sstp s =? 1) && sspinb s 0 && (sgen (sthr s 1) =? 1) && (length (sacts s) =? 1)
+  | None => false
+  end = true ->
+  exists s, sreachable 2 false [2; 2] s /\ sstp s = 1 /\ sspinb s 0 = true /\ sgen (sthr s 1) = 1.
+Proof.
+  intros r R E. destruct r as [s|]; [|discriminate E]. symmetry in R.
+  apply andb_prop in E. destruct E as [E E4]. apply andb_prop in E. destruct E as [E E3].
+  apply andb_prop in E. destruct E as [E1 E2].
+  exists s. split; [exists bs_example_trace; exact R|].
+  split; [now apply Nat.eqb_eq|]. split; [exact E2|now apply Nat.eqb_eq].
+Qed.
+
+Example bs_reachable_nontrivial :
+  exists s, sreachable 2 false [2; 2] s /\ sstp s = 1 /\ sspinb s 0 = true /\ sgen (sthr s 1) = 1.
+Proof. apply (bs_example_aux _ eq_refl). vm_compute. reflexivity. Qed.
